@@ -46,6 +46,10 @@ def op_jdn(op):
         return [Kw("write"), op[1], op[2], None]
     if k == "wclose":
         return [Kw("wclose"), op[1]]
+    if k == "pwait":
+        return [Kw("pwait"), op[1]]
+    if k == "write-bad":
+        return [Kw("write-bad"), op[1], op[2]]
     raise ValueError(op)
 
 
@@ -56,11 +60,13 @@ def act_jdn(a):
         return [Kw("cancel"), a[1], Kw(a[2])]
     if a[0] == "tick":
         return [Kw("tick"), a[1]]
+    if a[0] == "pexit":
+        return [Kw("pexit"), a[1]]
     raise ValueError(a)
 
 
 def item_for(cfg, hist):
-    return jdn({Kw("caps"): list(cfg["caps"]), Kw("nw"): cfg["nw"], Kw("npipes"): cfg.get("npipes", 0),
+    return jdn({Kw("caps"): list(cfg["caps"]), Kw("nw"): cfg["nw"], Kw("npipes"): cfg.get("npipes", 0), Kw("nprocs"): cfg.get("nprocs", 0),
                 Kw("hist"): [act_jdn(a) for a in hist]})
 
 
@@ -106,7 +112,11 @@ def make_actions(cfg):
             elif nchan == 1:
                 ops.append(("select", (("t", 0),)))
                 ops.append(("select", (("g", 0, base),)))
+            for k, pr in enumerate(m.procs):
+                if not pr["waited"]:
+                    ops += [("pwait", k), ("dl", 2, ("pwait", k))]
             for p in range(npipes):
+                ops += [("write-bad", p, 0.5), ("write-bad", p, 2.5)]
                 ops += [("read", p, 4, None), ("read", p, 4, 2), ("chunk", p, 4, None), ("chunk", p, 4, 2),
                         ("dl", 2, ("read", p, 4, None)), ("write", p, "ab"), ("write", p, "cdefg")]
                 if not m.pipes[p].wclosed:
@@ -127,6 +137,13 @@ def make_actions(cfg):
         nt = m.next_timer()
         if nt is not None:
             acts.append(("tick", (nt - m.now) / 1000.0))
+        elif cfg.get("free_tick"):
+            # no timer known to the model: let 3 virtual seconds pass anyway (a stale timer armed by a
+            # faulty implementation would fire in this window)
+            acts.append(("tick", 3.0))
+        for k, pr in enumerate(m.procs):
+            if not pr["exited"]:
+                acts.append(("pexit", k))
         return acts
     return actions
 
@@ -153,6 +170,8 @@ def judge(m, a, obs):
         pc, m2 = m.step_op(a[1], a[2])
     elif a[0] == "cancel":
         pc, m2 = m.cancel(a[1], a[2])
+    elif a[0] == "pexit":
+        pc, m2 = m.pexit(a[1])
     else:
         pc, m2 = m.tick(a[1])
     exp = tuple(sorted(((w, r, m2.now) for w, r in pc), key=repr))
@@ -235,8 +254,8 @@ def replay_text(cfg, hist, what):
 
 
 def explore(chk, cfg, depth, max_states=None, stop_at=None):
-    label = "caps=%s pipes=%d workers=%d" % (list(cfg["caps"]), cfg.get("npipes", 0), cfg["nw"])
-    init = TModel(cfg["caps"], cfg["nw"], cfg.get("npipes", 0))
+    label = "caps=%s pipes=%d procs=%d workers=%d" % (list(cfg["caps"]), cfg.get("npipes", 0), cfg.get("nprocs", 0), cfg["nw"])
+    init = TModel(cfg["caps"], cfg["nw"], cfg.get("npipes", 0), cfg.get("nprocs", 0))
 
     def run_layer(hists):
         items = [item_for(cfg, h) for h in hists]
@@ -281,13 +300,15 @@ def main():
                "sleep and deadline durations never coincide for one fiber; one reader per pipe (C16 covers sharing)")
     if chk.quick:
         cfgs = [(dict(caps=(0,), nw=2), 5), (dict(caps=(1,), nw=2), 5), (dict(caps=(0, 1), nw=2), 4),
-                (dict(caps=(0,), nw=3), 4), (dict(caps=(), nw=2, npipes=1), 5), (dict(caps=(0,), nw=2, npipes=1), 4)]
+                (dict(caps=(0,), nw=3), 4), (dict(caps=(), nw=2, npipes=1), 4), (dict(caps=(0,), nw=2, npipes=1), 3),
+                (dict(caps=(0,), nw=2, nprocs=1, free_tick=True), 4)]
     else:
         cfgs = [(dict(caps=(0,), nw=2), 8), (dict(caps=(1,), nw=2), 8), (dict(caps=(2,), nw=2), 7),
                 (dict(caps=(0, 1), nw=2), 6), (dict(caps=(0, 0), nw=2), 6), (dict(caps=(1, 1), nw=2), 6),
                 (dict(caps=(0,), nw=3), 7), (dict(caps=(1,), nw=3), 7), (dict(caps=(0, 1), nw=3), 5),
                 (dict(caps=(), nw=2, npipes=1), 8), (dict(caps=(0,), nw=2, npipes=1), 6),
-                (dict(caps=(), nw=3, npipes=2), 5)]
+                (dict(caps=(), nw=3, npipes=2), 5), (dict(caps=(0,), nw=2, nprocs=1, free_tick=True), 6),
+                (dict(caps=(), nw=2, nprocs=2, npipes=1, free_tick=True), 4)]
     done = []
     for i, (cfg, depth) in enumerate(cfgs):
         if chk.out_of_time(0.9):
